@@ -211,7 +211,7 @@ func TestC12(t *testing.T) {
 	zsetKeys := []string{"z1", "z2"}
 	fields := []string{"f1", "f2", "f3"}
 	vals := []string{"", "a", "bc", "hello world", "a\r\nb", "\x00\xff", "10", "-3"}
-	counters := []string{"0", "1", "-1", "41", strconv.FormatInt(math.MaxInt64, 10), strconv.FormatInt(math.MaxInt64-1, 10), strconv.FormatInt(math.MinInt64, 10), strconv.FormatInt(math.MinInt64+1, 10), "abc", "", "1.5", " 1"}
+	counters := []string{"0", "1", "-1", "41", strconv.FormatInt(math.MaxInt64, 10), strconv.FormatInt(math.MaxInt64-1, 10), strconv.FormatInt(math.MinInt64, 10), strconv.FormatInt(math.MinInt64+1, 10), "abc", "", "1.5", " 1", "0x10", "0X1f", "010", "0b11", "0o17", "1_000", "+5", "007"}
 	deltas := []string{"1", "-1", "5", "0", strconv.FormatInt(math.MaxInt64, 10), strconv.FormatInt(math.MinInt64, 10), "1000000"}
 	zscores := []string{"1", "2", "2.5", "-1", "0", "3", "1e3", "-inf", "+inf"}
 	cfgNames := []string{"verif-a", "verif-b", "verif c", "Verif-Mixed", "VERIF-UP", "port", "tls-port", "timeout", "maxclients", "databases"}
@@ -247,7 +247,23 @@ func TestC12(t *testing.T) {
 		classes := map[string]bool{}
 		for i := 0; i < n; i++ {
 			var c []string
-			switch rapid.IntRange(0, 33).Draw(rt, "op") {
+			switch rapid.IntRange(0, 34).Draw(rt, "op") {
+			case 34:
+				// a run of requests the server does not support (what a newer client sends first), then the program goes on
+				if rapid.IntRange(0, 3).Draw(rt, "burst") == 0 {
+					for j, m := 0, rapid.IntRange(28, 45).Draw(rt, "burstlen"); j < m; j++ {
+						p.Cmds = append(p.Cmds, cmd(rapid.SampledFrom([][]string{{"HELLO", "3"}, {"CLIENT", "SETINFO", "LIB-NAME", "x"}, {"COMMAND", "DOCS"}, {"GETT", "k"}}).Draw(rt, "unsupported")...))
+					}
+				}
+				c = []string{pick("derived", []string{"HLEN", "STRLEN", "HKEYS", "HVALS", "HEXISTS", "HSTRLEN"})}
+				if c[0] == "STRLEN" {
+					c = append(c, pick("k", strKeys))
+				} else {
+					c = append(c, pick("k", hashKeys)) // every key is used with one data type
+				}
+				if c[0] == "HEXISTS" || c[0] == "HSTRLEN" {
+					c = append(c, "f1")
+				}
 			case 0:
 				c = []string{"SET", pick("k", strKeys), pick("v", append(vals, counters...))}
 			case 1:
